@@ -64,6 +64,9 @@ pub fn run_next_op(registers: &mut Registers, mem: *mut MemoryAreas) -> Option<(
   let (next_op, length, cycles) = decode(code_slice);
   let should_break = next_op.is_block_end();
   let status = run_op(next_op, registers, mem, length as u32);
+  // the program counter is 16 bits wide: an instruction whose last byte is at
+  // 0xFFFF is followed by the one at 0x0000
+  registers.ip &= 0xffff;
   registers.cycles += (cycles / 4) as u32;
 
   return Some((status, should_break));
